@@ -313,11 +313,11 @@ var ctxVars = map[string]interface{}{
 // programs
 
 type site struct {
-	Key  string // "f3", "g4", "t5", "u6" (callbacks) / "T7" (template name) / "M8" (macro name)
-	Kind byte
-	Tpl  string // template the site is written in
-	Ref  string // referenced template / macro name
-	Ignore bool // (template names) written in a tag that carries `ignore missing`
+	Key    string // "f3", "g4", "t5", "u6" (callbacks) / "T7" (template name) / "M8" (macro name)
+	Kind   byte
+	Tpl    string // template the site is written in
+	Ref    string // referenced template / macro name
+	Ignore bool   // (template names) written in a tag that carries `ignore missing`
 }
 
 type program struct {
@@ -452,7 +452,7 @@ func nest(w *wrapper, in *program) *program {
 	return pr
 }
 
-func nestedPrograms() []*program {
+func nestedPrograms(allForms bool) []*program {
 	var ps []*program
 	for wi := range wrappers {
 		w := &wrappers[wi]
@@ -462,13 +462,13 @@ func nestedPrograms() []*program {
 			switch p.hole {
 			case 'E':
 				for _, f := range exprForms {
-					if nestedExprForms[f.name] {
+					if allForms || nestedExprForms[f.name] {
 						forms = append(forms, f)
 					}
 				}
 			case 'S':
 				for _, f := range seqForms {
-					if nestedSeqForms[f.name] {
+					if allForms || nestedSeqForms[f.name] {
 						forms = append(forms, f)
 					}
 				}
@@ -963,7 +963,7 @@ func baseCase(pr *program, mode string) *vlib.Outcome {
 func main() {
 	twig.SetDebugWriter(io.Discard)
 	if os.Getenv("C17_DUMP") != "" {
-		for _, pr := range append(allPrograms(), nestedPrograms()...) {
+		for _, pr := range append(allPrograms(), nestedPrograms(false)...) {
 			b := computeBaseline(pr)
 			n := 0
 			for _, c := range b.counts {
@@ -996,7 +996,7 @@ func main() {
 }
 
 func runAll(t *vlib.T) {
-	progs := append(allPrograms(), nestedPrograms()...)
+	progs := append(allPrograms(), nestedPrograms(t.Thorough())...)
 	bases := make([]baseline, len(progs))
 	for i, pr := range progs {
 		bases[i] = computeBaseline(pr)
